@@ -246,3 +246,38 @@ impl Property for C12 {
         super::predicates::check(name, case, v)
     }
 }
+
+pub struct CliRun {
+    pub success: bool,
+    pub stdout: String,
+    pub stderr: String,
+    /// every file in the scratch directory after the run (name -> content)
+    pub files: std::collections::BTreeMap<String, String>,
+}
+
+/// Run cargo-typify in a scratch directory holding `input.json` (and any
+/// pre-existing files); report exit status, streams and the resulting files.
+pub fn run_cli_full(text: &str, args: &[String], tag: &str, pre_existing: &[(&str, &str)]) -> Result<CliRun, String> {
+    static N: std::sync::atomic::AtomicUsize = std::sync::atomic::AtomicUsize::new(0);
+    let n = N.fetch_add(1, std::sync::atomic::Ordering::SeqCst);
+    let dir = std::path::Path::new("/verif/work").join(format!("cli-{}-{}-{}", std::process::id(), tag, n));
+    let _ = std::fs::remove_dir_all(&dir);
+    std::fs::create_dir_all(&dir).map_err(|e| e.to_string())?;
+    std::fs::write(dir.join("input.json"), text).map_err(|e| e.to_string())?;
+    for (name, content) in pre_existing {
+        std::fs::write(dir.join(name), content).map_err(|e| e.to_string())?;
+    }
+    if !std::path::Path::new(CLI).exists() {
+        return Err(format!("{CLI} not built"));
+    }
+    let out = Command::new(CLI).arg("typify").arg("input.json").args(args).current_dir(&dir).output().map_err(|e| format!("{CLI}: {e}"))?;
+    let mut files = std::collections::BTreeMap::new();
+    if let Ok(rd) = std::fs::read_dir(&dir) {
+        for e in rd.flatten() {
+            let name = e.file_name().to_string_lossy().to_string();
+            files.insert(name, std::fs::read_to_string(e.path()).unwrap_or_default());
+        }
+    }
+    let _ = std::fs::remove_dir_all(&dir);
+    Ok(CliRun { success: out.status.success(), stdout: String::from_utf8_lossy(&out.stdout).to_string(), stderr: String::from_utf8_lossy(&out.stderr).to_string(), files })
+}
